@@ -110,7 +110,7 @@ theorem ops_tables_match :
     sameElems Generated.preIncDecOps ["+", "-"] = true ∧ sameElems Generated.postIncDecOps ["+", "-"] = true ∧
     sameElems Generated.binaryOpWrappedRhs (([BinSym.add, .sub, .mul, .div, .mod, .xor, .band, .bor, .shl, .shr].map BinSym.sym) ++
                                    ([CmpSym.eq, .ne, .lt, .le, .gt, .ge].map CmpSym.sym)) = true ∧
-    Generated.postIncDecCalls = "opSymbol##opSymbol" ∧ Generated.preIncDecStep = ("opSymbol", 1) ∧
+    Generated.postIncDecUsesOwnSymbol = true ∧ Generated.preIncDecStep = ("opSymbol", 1) ∧
     Generated.compoundBody = "opSymbol" := by decide
 
 /-- non-vacuity (with the executable C++ rendering): mixed wrappers and types -/
